@@ -2,7 +2,7 @@
 From Coq Require Import List Bool Ascii String ZArith.
 Import ListNotations.
 From Lime Require Import Base.Str Base.Res Base.Json Codec.Types Codec.TextForms Codec.Doc Codec.Envelope
-  Codec.EnvelopeFacts Codec.Eqb Corr.Codec.
+  Codec.EnvelopeFacts Codec.Eqb Codec.Registry Corr.Codec.
 Open Scope string_scope.
 
 Inductive case :=
@@ -15,7 +15,10 @@ Inductive case :=
 | CNode (src : option string) (n : node) (o_str : string) (o_back : node)
 | CIdent (src : option string) (nm dm : string) (o_str : string) (o_back : string * string)
 | CMt (src : option string) (m : option mediatype) (o_str : string) (o_back : option mediatype)
-| CUri (s : string) (o : option string) (o_back : option string).
+| CUri (s : string) (o : option string) (o_back : option string)
+(* the document registry: registrations of fresh media types and decodes of messages of those types, in one
+   process; observed: the Go type class each decode produced, and whether its content encoded back to what came *)
+| CRegistry (ops : list rop) (o_kinds : list rkind) (o_stable : list bool).
 
 Definition model_json (e : env) : option json := res_json_opt (encode e).
 Definition model_typed (cx : ctx) (e : env) : res env :=
@@ -41,9 +44,16 @@ Definition model_case (c : case) : case :=
       let str := match m' with Some x => mt_str x | None => "" end in
       CMt src m' str (match m' with Some _ => parse_mt repaired str | None => None end)
   | CUri s o _ => CUri s o o                     (* net/url is not modelled; assumed law: a parsed URI's text parses to itself *)
+  | CRegistry ops _ st => CRegistry ops (rrun [] ops) (map (fun _ => true) st)
   end.
 
 Definition pair_str_eqb := pair_eqb String.eqb String.eqb.
+Definition rkind_eqb (a b : rkind) : bool :=
+  match a, b with
+  | RkCustom x, RkCustom y => Nat.eqb x y
+  | RkJson, RkJson | RkText, RkText => true
+  | _, _ => false
+  end.
 Definition opt_json_eqb := option_eqb json_eqb.
 Definition opt_mt_eqb := option_eqb mt_eqb.
 Definition opt_str_eqb := option_eqb String.eqb.
@@ -57,6 +67,19 @@ Definition case_eqb (a b : case) : bool :=
       String.eqb x x' && String.eqb y y' && String.eqb s s' && pair_str_eqb b b'
   | CMt _ m s b, CMt _ m' s' b' => opt_mt_eqb m m' && String.eqb s s' && opt_mt_eqb b b'
   | CUri _ o b, CUri _ o' b' => opt_str_eqb o o' && opt_str_eqb b b'
+  | CRegistry _ k s, CRegistry _ k' s' => list_eqb rkind_eqb k k' && list_eqb Bool.eqb s s'
+  | _, _ => false
+  end.
+
+(* every decode after a registration of its type yields the registered type (and no decode yields a type that
+   was not registered) *)
+Fixpoint registry_ok (ops : list rop) (k : list rkind) (reg : list nat) : bool :=
+  match ops, k with
+  | [], [] => true
+  | RRegister t :: r, _ => registry_ok r k (t :: reg)
+  | RDecode t _ :: r, x :: k' =>
+      (if existsb (Nat.eqb t) reg then rkind_eqb x (RkCustom t) else negb (rkind_eqb x (RkCustom t))) &&
+      registry_ok r k' reg
   | _, _ => false
   end.
 
@@ -83,6 +106,7 @@ Definition check (c : case) : bool :=
       | None => true
       end
   | CUri _ o b => match o with Some u => opt_str_eqb b (Some u) | None => true end
+  | CRegistry ops k st => forallb (fun b => b) st && registry_ok ops k []
   end.
 
 Definition mismatches (cs : list case) : list nat := bad_indices (fun c => case_eqb c (model_case c)) cs.
